@@ -60,7 +60,7 @@ def run(ctx, replay=None):
             ctx.broken.append(('correspondence:' + name, detail))
 
     # ------------------------------------------------------------------ INI: well-formed documents against the reference semantics
-    ndoc = 500 if quick else 30000
+    ndoc = 500 if quick else 100000
     docs = [gen_ini_doc(rng, ENV_NAMES) for _ in range(ndoc)]
     # directed: chains of references, re-definitions, sections, the substitution bound
     for n in (1, 2, 999, 1000):
@@ -107,7 +107,7 @@ def run(ctx, replay=None):
     ctx.sample({'ini-doc': spec_ops[min(7, len(spec_ops) - 1)], 'impl': il[0] if il else ''})
 
     # ------------------------------------------------------------------ INI: malformed / hostile text, impl vs model only
-    mal = [unhex(o.split(' ', 2)[2]) for o in ops[:400 if quick else 12000] if o.startswith('ini ')]
+    mal = [unhex(o.split(' ', 2)[2]) for o in ops[:400 if quick else 40000] if o.startswith('ini ')]
     mops = ['ini 61 ' + hx(mutate(rng, t, INI_SIG)) for t in mal] + ['ini 61 ' + hx(t) for t in INI_HOSTILE]
     mops += ['inif 61 ' + hx(t) for t in INI_HOSTILE if b'@INCLUDE ' not in t]
     il, ml, err = both_conf(ctx, exe, env_ops() + mops)
@@ -123,7 +123,7 @@ def run(ctx, replay=None):
             corr('ini-malformed', '%s: impl=%s model=%s' % (op[:300], a[:300], m[:300]))
 
     # ------------------------------------------------------------------ Apache-style: documents against the reference semantics
-    ndoc = 700 if quick else 40000
+    ndoc = 700 if quick else 120000
     cases = []
     for _ in range(ndoc):
         table = gen_table(rng)
@@ -202,7 +202,7 @@ def run(ctx, replay=None):
         ctx.sample({'examples/apacheconf.conf': il[-1][:300] if il else ''})
 
     # ------------------------------------------------------------------ Apache-style: malformed text, impl vs model only
-    base = [(o.split(' ')[1], o.split(' ')[2], o.split(' ')[3], unhex(o.split(' ')[4])) for o in ops[:500 if quick else 15000]]
+    base = [(o.split(' ')[1], o.split(' ')[2], o.split(' ')[3], unhex(o.split(' ')[4])) for o in ops[:500 if quick else 50000]]
     mops = ['ac %s %s %s %s' % (f, d, t, hx(mutate(rng, x, AC_SIG))) for f, d, t, x in base]
     for t in AC_HOSTILE:
         for f, d in ((0, 0), (3, 0), (2, 1)):
